@@ -239,7 +239,7 @@ class CProg:
             if o.type in (T.STR, T.RAW):
                 out.append(b"B" + struct.pack("<Bi", i, len(v)) + v)
             else:
-                out.append(b"I" + struct.pack("<Bq", i, v))
+                out.append(b"I" + struct.pack("<BQ", i, v & 0xFFFFFFFFFFFFFFFF))
         return b"".join(out)
 
     def op_feed(self, chunk, off0=0):
